@@ -12,10 +12,23 @@ Open Scope Z_scope.
 
 Inductive observed := ObsOk (bs : list Z) | ObsFail (ids : list string) | ObsOther.
 
+(* every error the model finds at this base, past the first one (sizes are known, so positions go on).
+   The implementation evaluates statements in an order of its own (what can be computed while compiling
+   comes first, the rest at the end), stops at the first error that raises, and after an `odd-address`
+   error goes on with every later address shifted by the inserted byte; so on a failing base the
+   comparison is: it failed, and it shares an error identifier with the model. *)
+Fixpoint errors_from (b pos : Z) (p : list item) : list string :=
+  match p with
+  | [] => []
+  | it :: r => (match item_bytes b pos it with Err ids => ids | _ => [] end)
+               ++ errors_from b (pos + item_size b pos it) r
+  end.
+
 Definition corr_one (p : list item) (bo : Z * observed) : bool :=
   match image (fst bo) p, snd bo with
   | Ok bs, ObsOk bs' => list_eqb Z.eqb bs bs'
-  | Err ids, ObsFail ids' => forallb (fun i => existsb (String.eqb i) ids') ids
+  | Err _, ObsFail ids' =>
+      existsb (fun i => existsb (String.eqb i) (errors_from (fst bo) 0 p)) ids'
   | _, _ => false
   end.
 
@@ -57,5 +70,6 @@ Fixpoint law_all (aw : list (Z * Z)) (obs : list (Z * observed)) : bool :=
   | _ :: r => law_all aw r
   end.
 
-Definition judge (c : list item * list (Z * Z) * list (Z * observed)) : N :=
+Definition case := (list item * list (Z * Z) * list (Z * observed))%type.
+Definition judge (c : case) : N :=
   let '(p, aw, obs) := c in code_of (corr_case p aw obs) (law_all aw obs).
